@@ -175,24 +175,25 @@ type stepRec struct {
 
 // clientRun is one scenario against a fresh provider (fresh breaker).
 type clientRun struct {
-	rep      *vh.Report
-	name     string
-	idx      int
-	api      *fakeAPI
-	svc      providers.AdminService
-	cb       *circuit.Breaker
-	step     int
-	open     map[int]*apiReq
-	served   map[string]int // "group|token" -> times requested
-	lastFail int            // step of the last failing answer released
-	rejSince bool           // a rejection was seen since the last failing answer
-	halfOpen bool           // first admission after a rejection phase seen; no failing answer / <6 successes since
-	okSince  int
-	nextID   int
-	nreq     int
-	trace    []stepRec
-	viol     *clientViol
-	stalled  bool
+	rep          *vh.Report
+	name         string
+	idx          int
+	api          *fakeAPI
+	svc          providers.AdminService
+	cb           *circuit.Breaker
+	step         int
+	open         map[int]*apiReq
+	served       map[string]int // "group|token" -> times requested
+	lastFail     int            // step of the last failing answer released
+	rejSince     bool           // a rejection was seen since the last failing answer
+	halfOpen     bool           // first admission after a rejection phase seen; no failing answer / <6 successes since
+	okSince      int
+	nextID       int
+	nreq         int
+	acctReported bool
+	trace        []stepRec
+	viol         *clientViol
+	stalled      bool
 }
 
 func (c *clientRun) logf(format string, a ...interface{}) {
@@ -266,10 +267,13 @@ func (c *clientRun) account() {
 	}
 	_, counts, _, _ := c.cb.VerifSnapshot()
 	c.rep.Count("client_quiescent_points_accounted", 1)
-	if counts.CurrentRequests != len(c.open) {
-		cls := "none"
+	if counts.CurrentRequests != len(c.open) && !c.acctReported {
+		c.acctReported = true // once per scenario: the culprit is the request that has just arrived
+		cls, last := "none", 0
 		for _, q := range c.open {
-			cls = pageClass(q, c.served)
+			if q.Seq > last {
+				cls, last = pageClass(q, c.served), q.Seq
+			}
 		}
 		c.violate("client: open-directory-requests-differ-from-breaker-in-flight-count page="+cls,
 			fmt.Sprintf("%d directory requests are open at the API but the breaker counts %d calls in flight", len(c.open), counts.CurrentRequests))
